@@ -34,6 +34,24 @@ Theorem C19_out_of_range_error_is_max_instance :
           Gen.ClangDelta.skeletons = true.
 Proof. vm_compute. reflexivity. Qed.
 
+(* --warn-on-counter-out-of-bounds turns the error into a warning (and a clamped range) only for the transformations
+   that the tool's help text names; for every other transformation an out-of-range counter ends in a fatal error
+   without any rewrite whether or not the switch is given *)
+Theorem C19_warn_switch_only_where_documented :
+  forallb (fun t => oob_strict_with is_fatal (snd (fst t)) (snd t) || mem (fst (fst t)) Gen.ClangDelta.warn_supported)
+          Gen.ClangDelta.skeletons = true /\
+  forall name n p, In (name, n, p) Gen.ClangDelta.skeletons -> mem name Gen.ClangDelta.warn_supported = false ->
+  forall (e : env) (orc : nat -> bool), e_query e = false -> e_oob e = true ->
+  is_fatal (s_err (exec e orc p st0)) = true /\ s_rewrote (exec e orc p st0) = false.
+Proof.
+  assert (A : forallb (fun t => oob_strict_with is_fatal (snd (fst t)) (snd t) || mem (fst (fst t)) Gen.ClangDelta.warn_supported)
+                      Gen.ClangDelta.skeletons = true) by (vm_compute; reflexivity).
+  assert (Bd : forallb (fun t => bounded (snd (fst t)) (snd t)) Gen.ClangDelta.skeletons = true) by (vm_compute; reflexivity).
+  split; [exact A|]. intros name n p I NM e orc Q OOB.
+  rewrite forallb_forall in A, Bd. specialize (A _ I). specialize (Bd _ I). cbn [fst snd] in A, Bd.
+  rewrite NM, orb_false_r in A. exact (oob_strict_sound is_fatal n p Bd A e orc Q OOB).
+Qed.
+
 (* the shared driver (TransformationManager::doTransformation): with --query-instances the output is
    neither opened nor written, for every behaviour of its other conditions *)
 Theorem C19_driver_query_never_outputs :
